@@ -496,7 +496,7 @@ func (sw *scanWriter) writeFilled(opts ScanWriterParams) {
 				p := geohash.EncodeWithPrecision(center.Y, center.X, uint(sw.precision))
 				vals = append(vals, resp.StringValue(p))
 			case outputBounds:
-				bbox := opts.obj.Rect()
+				bbox := finiteRect(opts.obj.Geo())
 				vals = append(vals, resp.ArrayValue([]resp.Value{
 					resp.ArrayValue([]resp.Value{
 						resp.FloatValue(bbox.Min.Y),
